@@ -51,6 +51,8 @@ def main():
     tmpd = os.path.join(ctx.scratch, "tmp")
     os.makedirs(tmpd, exist_ok=True)
     tempfile.tempdir = tmpd
+    # artap, joblib and sqlite chatter goes to stderr: drop it (our own output uses the saved stdout)
+    os.dup2(os.open(os.devnull, os.O_WRONLY), 2)
     import warnings
     warnings.filterwarnings('ignore')
     rc = 2
